@@ -195,7 +195,7 @@ func (o *oracleC19) before(c *stepCtx) {
 	sop.Z = n
 	var r Result
 	verifrt.Shadow(func() { r = execOp(sw, &sop) })
-	if r.Skipped {
+	if r.Skipped || r.Timeout {
 		return
 	}
 	o.haveExp = true
